@@ -119,7 +119,7 @@ class _Null(object):
 class BrokerRig(object):
     UNKNOWN = "__no_such_portfolio__"
 
-    def __init__(self, t0, quotes_mil, fee, observer, printing=False, ctor_funds=False):
+    def __init__(self, t0, quotes_mil, fee, observer, printing=False, ctor_funds=False, ccy="USD"):
         from qstrader.broker.simulated_broker import SimulatedBroker
         from qstrader.exchange.simulated_exchange import SimulatedExchange
         from qstrader import settings
@@ -133,12 +133,13 @@ class BrokerRig(object):
         # ctor_funds: a first account subscription is delivered as the constructor's `initial_funds` instead
         self.ctor_funds = bool(ctor_funds)
         self.ncalls = 0
+        self.ccy = ccy                          # the account's base currency (portfolios are created in it)
         import sys
         saved = sys.stdout
         sys.stdout = _Null()
         try:
             self.broker = SimulatedBroker(start, SimulatedExchange(start), self.handler,
-                                          account_id="acct", initial_funds=0.0, fee_model=make_fee(fee))
+                                          account_id="acct", base_currency=ccy, initial_funds=0.0, fee_model=make_fee(fee))
         finally:
             sys.stdout = saved
             settings.set_print_events(False)
@@ -173,7 +174,7 @@ class BrokerRig(object):
                 from qstrader.exchange.simulated_exchange import SimulatedExchange
                 start = ts(self.t0)
                 b = self.broker = SimulatedBroker(start, SimulatedExchange(start), self.handler, account_id="acct",
-                                                  initial_funds=amt, fee_model=make_fee(self.fee))
+                                                  base_currency=self.ccy, initial_funds=amt, fee_model=make_fee(self.fee))
             elif op == "sub_acct":
                 b.subscribe_funds_to_account(amt)
             elif op == "wd_acct":
